@@ -18,7 +18,7 @@ var mutValues = []string{
 	"~", "null", "true", "1", "1.5", "[]", "{}", "[a]", "{a: b}", `""`, "''", "|", ">", "|-", ">+", "!!binary aGk=", "!!str 1",
 	"!!int x", "*a", "&a x", "'{{ $x }}'", `"{{ .X }}"`, "sum(", "1x", "0", "-1", "0x10", "2024-01-01", ".inf", "? a", "- a", "foo{bar}",
 	"__name__", `"\xff"`, `"\u0000"`, "a: b: c", "@", "`", "%", "!", "&", "*",
-	`up{"foo(bar"=~"a"}`, `{"a.b"="c"}`, `up{job=~"a|b"} == 0`, `sum by ("a b") (up)`, `'{"up", job!~"[a"}'`, `count({__name__=~".+"})`,
+	`"a\n\nb"`, `"\n\n\n"`, `up{"foo(bar"=~"a"}`, `{"a.b"="c"}`, `up{job=~"a|b"} == 0`, `sum by ("a b") (up)`, `'{"up", job!~"[a"}'`, `count({__name__=~".+"})`,
 }
 
 var mutLines = []string{
@@ -233,6 +233,44 @@ var mutOps = []mutOp{
 		out[i] = strings.TrimSuffix(out[i], "\n") + strings.Repeat(" x", 3000) + "\n"
 		return out
 	})},
+	// wrappers the relaxed parser is meant for: extra top-level keys, rules nested in other documents, YAML inside YAML
+	{"appendKey", func(rng *rand.Rand, b []byte) []byte {
+		tails := []string{"description: \"line one\\nline two\\nline three\"", "zz: |\n  a\n\n  b", "notes: 'a\n\n  b'", "zz: \"\\n\\n\\n\""}
+		out := append([]byte{}, b...)
+		if len(out) > 0 && out[len(out)-1] != '\n' {
+			out = append(out, '\n')
+		}
+		out = append(out, tails[rng.Intn(len(tails))]...)
+		if rng.Intn(2) == 0 {
+			out = append(out, '\n')
+		}
+		return out
+	}},
+	{"nestUnder", func(rng *rand.Rand, b []byte) []byte {
+		heads := []string{"apiVersion: monitoring.coreos.com/v1\nkind: PrometheusRule\nspec:\n", "values:\n  prometheus:\n", "- job: x\n  data:\n"}
+		h := heads[rng.Intn(len(heads))]
+		ind := strings.Repeat(" ", 2+2*rng.Intn(2))
+		ls := splitKeep(b)
+		var sb strings.Builder
+		sb.WriteString(h)
+		for _, l := range ls {
+			if l != "" {
+				sb.WriteString(ind + l)
+			}
+		}
+		return []byte(sb.String())
+	}},
+	{"yamlInYaml", func(rng *rand.Rand, b []byte) []byte {
+		ls := splitKeep(b)
+		var sb strings.Builder
+		sb.WriteString("kind: ConfigMap\ndata:\n  rules.yml: " + []string{"|", "|-", ">", "|+"}[rng.Intn(4)] + "\n")
+		for _, l := range ls {
+			if l != "" {
+				sb.WriteString("    " + l)
+			}
+		}
+		return []byte(sb.String())
+	}},
 	{"blockScalar", lineOp(func(rng *rand.Rand, ls []string, i int) []string {
 		l := strings.TrimSuffix(ls[i], "\n")
 		p := strings.Index(l, ": ")
